@@ -7,12 +7,16 @@ program_chains and the evidence's coverage.bounds):
   line) is produced by the standard library itself (`traceback.format_list` on a `FrameSummary`,
   `traceback.format_exception_only` on a real exception object), so each text *is* in the interpreter's
   standard format.  Oracle: `ParsedException.from_string(t)` recovers every generating field and
-  `to_string() == t`.
+  `to_string() == t`.  Besides ordinary source lines the menu holds source lines that begin like a line of the
+  traceback grammar (LOOKALIKE_SOURCES: prefixes of a `File "..."` line, the header, an exception line).
 * part `markers` - the same texts with position-marker lines (`~~~^^^`) below source lines: the fields must
   still be recovered (text identity is not demanded: to_string documents that it omits anchors).
 * part `programs` - call-chain programs generated as source files in a scratch directory under /dev/shm,
   loaded under unique module names, run, and the resulting exception handed to both the standard
-  `traceback` module (oracle; position-marker lines removed) and boltons.tbutils.
+  `traceback` module (oracle; position-marker lines removed) and boltons.tbutils.  Links include code outside
+  files: exec'd strings, '<...>' names registered in linecache, and virtual paths whose source comes from a
+  PEP 302 loader's get_source (VIRTUAL_LINKS).  tbutils is asked after the linecache entries the oracle
+  left behind were dropped, so it has to find the source lines itself.
 """
 import importlib.util
 import itertools
@@ -783,15 +787,28 @@ def run(ctx):
     cov['exhaustive'] = True
     quick = ctx.quick()
     cov['bounds'] = {
-        'texts': {'frames': '0-2 over the full 128-entry frame menu' + (
-                      ', 3 over the 8-entry reduced menu' if quick else
-                      ', 3 over the 64-entry medium menu, 4 over the 8-entry reduced menu'),
+        'texts': {'frames': '0-2 over the full %d-entry frame menu' % len(FRAME_MENU) + (
+                      ', 3 over the %d-entry reduced menu' % len(SMALL_MENU) if quick else
+                      ', 3 over the %d-entry medium menu, 4 over the %d-entry reduced menu'
+                      % (len(MEDIUM_MENU), len(SMALL_MENU))),
                   'paths': PATHS, 'linenos': LINES, 'functions': FUNCS, 'source_lines': SOURCES,
+                  'lookalike_source_lines': LOOKALIKE_SOURCES,
+                  'lookalike_frames': 'texts with at least one frame whose source line is a lookalike: 1 frame with '
+                                      'every path/line/function; 2 frames: each lookalike frame before and after every '
+                                      'entry of the full menu and every other lookalike; %s frames over the %d '
+                                      'lookalike frames + the reduced menu'
+                                      % ('3' if quick else '3-4', len(LOOK_MENU)),
                   'exception_types': EXC_TYPES, 'messages': MESSAGES},
         'markers': {'marker_lines': MARKERS, 'placement': 'every non-empty subset of the source-bearing frames',
-                    'frames': '1-3 over the reduced menu' if quick else '1-2 full menu, 3 reduced menu'},
-        'programs': {'links': LINKS, 'chain_length': '0-3 over all links, 4 over %s' % (DEEP_LINKS,) if quick
-                     else '0-4 over all links, 5-6 over %s' % (DEEP_LINKS,),
+                    'frames': ('1-3 over the reduced menu' if quick else '1-2 full menu, 3 reduced menu') +
+                              '; lookalike source lines: 1 frame with every surrounding, %s frames over lookalike '
+                              'frames + reduced menu' % ('2' if quick else '2-3')},
+        'programs': {'links': LINKS, 'virtual_links': VIRTUAL_LINKS,
+                     'chain_length': ('0-3 over all links, 4 over %s' % (DEEP_LINKS,) if quick
+                                      else '0-4 over all links, 5-6 over %s' % (DEEP_LINKS,)) +
+                                     '; chains containing a virtual link: 0-%d' % (2 if quick else 3),
+                     'linecache': 'entries that linecache can rebuild itself are dropped between asking the traceback '
+                                  'module and asking tbutils (TracebackInfo on a cold cache, later classes warm)',
                      'exception_kinds': RAISE,
                      'classes': 'TracebackInfo, ExceptionInfo for every program; ContextualTracebackInfo, '
                                 'ContextualExceptionInfo for chains of length <= %d' % (2 if quick else 3)},
@@ -804,6 +821,12 @@ def run(ctx):
         'a recovered line number may be an int or its decimal string; an absent source line may be "" or None',
         'source text is compared after stripping surrounding white space (the traceback module strips it)',
         'messages whose last line looks like "Exception ... ignored" are outside the text menu',
+        'source lines that, stripped, are themselves a complete stack-entry line (File "p", line N, in name) are '
+        'outside the text menu: from_string reads them as a further frame (only the indentation tells them apart); '
+        'reported with fixes/C16-6-source-line-reads-like-frame.patch',
+        'virtual code is published through __loader__ (with or without __spec__); a namespace with __spec__ but no '
+        '__loader__ is not explored: tbutils ignores __spec__.loader there although linecache uses it; reported with '
+        'fixes/C16-5-spec-loader-fallback.patch',
     ]
 
 
